@@ -12,3 +12,4 @@ import Woodpile.Props.C10
 import Woodpile.Proofs.IovecFrame
 import Woodpile.Props.C20
 import Woodpile.Proofs.IovecArena
+import Woodpile.Proofs.IovecHeap
